@@ -32,7 +32,7 @@ ASSUMPTIONS = [
 
 
 def universe():
-    docs = list(c02.filter_docs()) + list(c13.docs()) + list(c01.SEP_DOCS) + list(c06.DOCS)
+    docs = list(c02.filter_docs()) + list(c13.docs()) + list(c01.SEP_DOCS) + [d for d in c06.DOCS if not isinstance(d, str) or len(d) < 100]
     docs += [
         [100, 100.0, 1e20, 1e-7, 0, -0.0, 1, 1.0, -1.5e-3, 1.5, 2, -1, 10, 1e2, 0.1],
         {"a": [100, "100", "1e2"], "b": {"a": 100}},
